@@ -57,6 +57,7 @@ func init() {
 		{"C13", "bytes", props.C13bytes},
 		{"C07", "adder", props.C07adder},
 		{"C05", "adder", props.C07adder},
+		{"C04", "adder", props.C07adder},
 		{"C17", "garble", props.C01},
 		{"C17", "offset", props.C01offset},
 		{"C17", "entropy", props.C17entropy},
